@@ -47,10 +47,23 @@ def gen_case(seed, tier, index=0):
     dur = rr.choice([0.3, 1.0, 3.0])
     plan = {'default_dur': dur}
     return {'prog': prog, 'knobs': knobs, 'plan': {}, 'dur': dur, 'sched_seed': rr.getrandbits(48),
-            'restart_stage': restart_stage}
+            'restart_stage': restart_stage, 'pauses': common.gen_pauses(rr, 0.25),
+            'slow_wake_p': rr.choice([0.0, 0.2, 0.5]),
+            # targeted placement: the operator pauses the controller just as the condition task of a seeded iteration
+            # starts, so that the condition is reported while the controller sleeps
+            'pause_on_condition': ({'loop': rr.randrange(len(e2.loops_of(prog))), 'iteration': rr.choice([0, 0, 1, 2]),
+                                    'extra': rr.choice([0.5, 3.0, 8.0])} if rr.random() < 0.2 else None)}
 
 
 def shrink_candidates(case):
+    if case.get('pauses'):
+        c = copy.deepcopy(case)
+        c['pauses'] = []
+        yield c
+    if case.get('pause_on_condition'):
+        c = copy.deepcopy(case)
+        c['pause_on_condition'] = None
+        yield c
     p = case['prog']
     if p.get('second'):
         c = copy.deepcopy(case)
@@ -102,6 +115,8 @@ def run_case(case, schedule, opts):
     for lp in loops:
         bs = {n: st for (n, st, _, _, _) in e2.body_components(lp)}
         cond_k[(lp['import_stage'] + bs[e2.bn(lp, 'stop')], e2.bn(lp, 'stop'))] = lp['k']
+    cond_keys = list(cond_k)
+    paused = []
     default = {'dur': case.get('dur', 1.0), 'exit': 'Success', 'outs': [[0.05, 'data.txt', 'x\n']]}
     R.CTX = ctx = R.RunContext(R.Plan({}, {}))
     result = {'violations': []}
@@ -120,6 +135,10 @@ def run_case(case, schedule, opts):
         ckey = (int(ref.split('.', 1)[0][5:]), name.split('#', 1)[1]) if '#' in name else None
         if ckey in cond_k:
             it = int(name.split('#', 1)[0])
+            poc = case.get('pause_on_condition')
+            if poc and not paused and it == poc['iteration'] and ckey == cond_keys[poc['loop'] % len(cond_keys)]:
+                paused.append(it)
+                R.start_operator([[0.0, spec.get('dur', 1.0) + poc['extra']]], slow_wake_p=case.get('slow_wake_p') or 0.5)
             spec['outs'] = [[0.05, 'iteration.next', 'True\n' if it < cond_k[ckey] else 'False\n', 'w']]
         if ref in outside_meta:
             wg = ctx.exp.experimentGraph
@@ -147,6 +166,8 @@ def run_case(case, schedule, opts):
         ctx.exp = exp
         controller, comps = R.new_controller(exp)
         ctx.controller = controller
+        if case.get('pauses'):
+            R.start_operator(case['pauses'], slow_wake_p=case.get('slow_wake_p', 0.0))
         rs = case.get('restart_stage')
         if rs is None or rs <= 0 or rs >= len(exp._stages):
             R.run_stages(exp, controller, REC, outcomes)
